@@ -1,12 +1,13 @@
 (* Wide.v (C05, round 2) — proofs of the widened statements of Props.v:
-   * "never NaN" below make_pafs: the divisor of the projection is > 0 for EVERY
-     edge in both variants (so distance_to_edge / make_edge_maps are defined for
-     coincident endpoints too); a zero-length edge's distance is the distance to
-     the point; the repaired distance IS the segment distance for every edge,
+   * "never NaN" below make_pafs: the model's division is partial (None for divisor 0);
+     the divisor of the projection is > 0 for EVERY edge in both variants
+     (Lemmas.edge_len_pos -> dist_edge_some), so distance_to_edge / make_edge_maps are
+     defined for coincident endpoints too; a zero-length edge's distance is the distance to
+     the point; the current tree's distance (fixed_len = true) IS the segment distance for every edge,
      degenerate or not;
    * edge lists: self loops, reversed duplicates, repeated edges;
    * animal order is irrelevant (Permutation), only sample 0 is used;
-   * the whole property in one statement for the repaired code (fixed_len = true,
+   * the whole property in one statement for the current tree (fixed_len = true,
      fixed_box = true): every cell is the sum, over the animals with a node in the
      closed image, of  weight(true distance to the segment) * unit vector,  0 for a
      missing endpoint / zero length. *)
@@ -18,27 +19,26 @@ Local Open Scope R_scope.
 (* ------------------------------------------------------------------ *)
 (* the division of distance_to_edge *)
 
-Lemma edge_len_pos fl s d : (0 < edge_len fl (len2 s d))%Q.
-Proof.
-  unfold edge_len. destruct fl.
-  - destruct (Qeq_bool (len2 s d) 0) eqn:E; [reflexivity|]. apply len2_nonzero_pos; exact E.
-  - apply Rlt_Qlt. rewrite Q2R_qmax, Q2R_0, Q2R_1. pose proof (Rmax_r (Q2R (len2 s d)) 1). lra.
-Qed.
+(* edge_len_pos (the guard: divisor > 0 in both variants) is in Lemmas.v: dist_edge_some,
+   "the model's partial distance_to_edge is always defined", is proved from it there *)
 
 Lemma edge_len_code_ge1 l : (1 <= edge_len false l)%Q.
 Proof.
   unfold edge_len. apply Rle_Qle. rewrite Q2R_qmax, Q2R_1. apply Rmax_r.
 Qed.
 
-Lemma dist_edge_nonneg fl s d x y : (0 <= dist_edge fl s d x y)%Q.
+Lemma dval_nonneg fl s d x y : (0 <= dval fl s d x y)%Q.
 Proof.
   apply Rle_Qle. rewrite Q2R_0, Q2R_dist_edge. unfold proj_dist2. cbv zeta.
   match goal with |- 0 <= ?a * ?a + ?b * ?b =>
     pose proof (Rle_0_sqr a); pose proof (Rle_0_sqr b); unfold Rsqr in *; lra end.
 Qed.
 
-Lemma dist_edge_degenerate fl s d x y :
-  (len2 s d == 0)%Q -> (dist_edge fl s d x y == sq (x - fst s) + sq (y - snd s))%Q.
+Lemma dist_edge_nonneg fl s d x y : exists D, dist_edge fl s d x y = Some D /\ (0 <= D)%Q.
+Proof. exists (dval fl s d x y). split; [apply dist_edge_some|apply dval_nonneg]. Qed.
+
+Lemma dval_degenerate fl s d x y :
+  (len2 s d == 0)%Q -> (dval fl s d x y == sq (x - fst s) + sq (y - snd s))%Q.
 Proof.
   intros Hz. apply eqR_Qeq. rewrite Q2R_dist_edge.
   apply Qeq_eqR in Hz. rewrite Q2R_0, Q2R_len2 in Hz. apply d2_zero_iff in Hz.
@@ -46,11 +46,18 @@ Proof.
   rewrite Q2R_plus, !Q2R_sq, !Q2R_minus. unfold q2; cbn [fst snd]. ring.
 Qed.
 
+Lemma dist_edge_degenerate fl s d x y :
+  (len2 s d == 0)%Q ->
+  exists D, dist_edge fl s d x y = Some D /\ (D == sq (x - fst s) + sq (y - snd s))%Q.
+Proof. intros Hz. exists (dval fl s d x y). split; [apply dist_edge_some|apply dval_degenerate; exact Hz]. Qed.
+
+(* NaN exactly when an endpoint is: the direction "visible endpoints -> defined" is
+   dist_edge_some, i.e. the division guard edge_len_pos *)
 Lemma dist_edge_opt_none_iff fl s d x y :
   dist_edge_opt fl s d x y = None <-> s = None \/ d = None.
 Proof.
-  destruct s as [s|], d as [d|]; simpl; split; intros H; try discriminate; auto;
-    destruct H; discriminate.
+  destruct s as [s|], d as [d|]; cbn [dist_edge_opt]; try rewrite dist_edge_some;
+    split; intros H; try discriminate; auto; destruct H; discriminate.
 Qed.
 
 Lemma seg_dist2_degenerate s p : is_seg_dist2 s s p (d2 s p).
@@ -62,34 +69,38 @@ Proof.
   - intros t _. rewrite E. lra.
 Qed.
 
-(* full strength: for the repaired divisor the model's distance is the squared distance
+(* full strength: for the current tree's divisor (fixed_len = true) the model's distance is the squared distance
    to the closed segment for EVERY edge (a zero-length edge is the point itself) *)
-Lemma repaired_dist_is_seg_dist2 s d x y :
-  is_seg_dist2 (q2 s) (q2 d) (Q2R x, Q2R y) (Q2R (dist_edge true s d x y)).
+Lemma repaired_dval_is_seg_dist2 s d x y :
+  is_seg_dist2 (q2 s) (q2 d) (Q2R x, Q2R y) (Q2R (dval true s d x y)).
 Proof.
   destruct (Qeq_dec (len2 s d) 0) as [Hz|Hz].
-  - rewrite (Qeq_eqR _ _ (dist_edge_degenerate true s d x y Hz)).
+  - rewrite (Qeq_eqR _ _ (dval_degenerate true s d x y Hz)).
     pose proof Hz as Hz'. apply Qeq_eqR in Hz'. rewrite Q2R_0, Q2R_len2 in Hz'.
     apply d2_zero_iff in Hz'. rewrite Hz'.
     replace (Q2R (sq (x - fst s) + sq (y - snd s))) with (d2 (q2 s) (Q2R x, Q2R y)).
     + apply seg_dist2_degenerate.
     + rewrite Q2R_plus, !Q2R_sq, !Q2R_minus. unfold d2, q2. cbn [fst snd]. ring.
-  - apply model_dist_is_seg_dist2. apply len_ok_fixed. exact Hz.
+  - apply dval_is_seg_dist2. apply len_ok_fixed. exact Hz.
 Qed.
+
+Lemma repaired_dist_is_seg_dist2 s d x y :
+  exists D, dist_edge true s d x y = Some D /\ is_seg_dist2 (q2 s) (q2 d) (Q2R x, Q2R y) (Q2R D).
+Proof. exists (dval true s d x y). split; [apply dist_edge_some|apply repaired_dval_is_seg_dist2]. Qed.
 
 Lemma repaired_weight_true_distance sig s d x y v :
   (0 < sig)%Q -> is_seg_dist2 (q2 s) (q2 d) (Q2R x, Q2R y) v ->
   mweight true sig s d x y = paf_weight (Q2R sig) v.
 Proof.
-  intros Hs Hv. unfold mweight, paf_weight. rewrite Q2R_gauss_arg by exact Hs.
-  rewrite (seg_dist2_unique _ _ _ _ _ (repaired_dist_is_seg_dist2 s d x y) Hv). reflexivity.
+  intros Hs Hv. rewrite mweight_val by exact Hs. unfold paf_weight. rewrite Q2R_gauss_arg by exact Hs.
+  rewrite (seg_dist2_unique _ _ _ _ _ (repaired_dval_is_seg_dist2 s d x y) Hv). reflexivity.
 Qed.
 
 Lemma repaired_weight_one_iff_on_segment sig s d x y :
   (0 < sig)%Q ->
   (mweight true sig s d x y = 1 <-> on_segment (q2 s) (q2 d) (Q2R x, Q2R y)).
 Proof.
-  intros Hs. pose proof (repaired_dist_is_seg_dist2 s d x y) as Hv.
+  intros Hs. pose proof (repaired_dval_is_seg_dist2 s d x y) as Hv.
   rewrite (repaired_weight_true_distance sig s d x y _ Hs Hv).
   rewrite (paf_weight_one_iff (Q2R sig) _ (sig_pos_R _ Hs) (seg_dist2_nonneg _ _ _ _ Hv)).
   apply (seg_dist2_zero_iff _ _ _ _ Hv).
@@ -118,7 +129,7 @@ Qed.
 
 Lemma make_edge_maps_eq fl xv yv srcs dsts sig :
   make_edge_maps fl xv yv srcs dsts sig =
-  map (fun y => map (fun x => map2 (fun s d => option_map (gauss_arg sig) (dist_edge_opt fl s d x y))
+  map (fun y => map (fun x => map2 (fun s d => obind (gauss_arg sig) (dist_edge_opt fl s d x y))
                                    srcs dsts) xv) yv.
 Proof.
   unfold make_edge_maps, distance_to_edge, sampling_grid.
@@ -128,10 +139,12 @@ Qed.
 
 Lemma edge_map_cell_defined fl sig s d x y :
   (0 < sig)%Q ->
-  exists a, option_map (gauss_arg sig) (dist_edge_opt fl (Some s) (Some d) x y) = Some a /\
+  exists a, obind (gauss_arg sig) (dist_edge_opt fl (Some s) (Some d) x y) = Some a /\
             (a <= 0)%Q /\ exp (Q2R a) = mweight fl sig s d x y.
 Proof.
-  intros Hs. eexists. split; [reflexivity|]. split; [apply gauss_arg_nonpos; exact Hs|reflexivity].
+  intros Hs. cbn [dist_edge_opt]. rewrite dist_edge_some. cbn [obind]. rewrite (gauss_arg_some _ _ Hs).
+  eexists. split; [reflexivity|]. split; [apply gauss_arg_nonpos; exact Hs|].
+  rewrite (mweight_val _ _ _ _ _ _ Hs). reflexivity.
 Qed.
 
 (* ------------------------------------------------------------------ *)
@@ -163,8 +176,8 @@ Lemma mweight_repaired_sym sig s d x y :
   (0 < sig)%Q -> mweight true sig d s x y = mweight true sig s d x y.
 Proof.
   intros Hs.
-  rewrite (repaired_weight_true_distance sig s d x y _ Hs (repaired_dist_is_seg_dist2 s d x y)).
-  apply repaired_weight_true_distance; [exact Hs|]. apply seg_dist2_sym. apply repaired_dist_is_seg_dist2.
+  rewrite (repaired_weight_true_distance sig s d x y _ Hs (repaired_dval_is_seg_dist2 s d x y)).
+  apply repaired_weight_true_distance; [exact Hs|]. apply seg_dist2_sym. apply repaired_dval_is_seg_dist2.
 Qed.
 
 Lemma comp_unit_vec_rev c s d : comp c (unit_vec_spec d s) = - comp c (unit_vec_spec s d).
@@ -257,7 +270,7 @@ Proof.
 Qed.
 
 (* ------------------------------------------------------------------ *)
-(* the whole property in one statement, for the repaired code *)
+(* the whole property in one statement, for the current tree (fl = fb = true; since fixes 5bfaeb9, f00ee7f) *)
 
 (* what one animal must contribute to component c of edge (a,b) at image position p,
    in the property's own vocabulary (no reference to the model's arithmetic) *)
@@ -279,9 +292,9 @@ Proof.
   destruct (node inst a) as [p|] eqn:Ha; [destruct (node inst b) as [q|] eqn:Hb|].
   - split.
     + intros Hz. rewrite (animal_contrib_zero_length true sig a b c x y inst p q Ha Hb Hz). reflexivity.
-    + intros Hz. exists (Q2R (dist_edge true p q x y)). split; [apply repaired_dist_is_seg_dist2|].
+    + intros Hz. exists (Q2R (dval true p q x y)). split; [apply repaired_dval_is_seg_dist2|].
       rewrite (animal_contrib_value true sig a b c x y inst p q Ha Hb Hz). f_equal.
-      apply repaired_weight_true_distance; [exact Hs|apply repaired_dist_is_seg_dist2].
+      apply repaired_weight_true_distance; [exact Hs|apply repaired_dval_is_seg_dist2].
   - rewrite (animal_contrib_missing true sig a b c x y inst (or_intror Hb)). reflexivity.
   - rewrite (animal_contrib_missing true sig a b c x y inst (or_introl Ha)). reflexivity.
 Qed.
@@ -343,7 +356,7 @@ Proof.
   apply map2_Forall. intros a b Ha Hb.
   rewrite Forall_forall in Hs, Hd. specialize (Hs a Ha). specialize (Hd b Hb).
   destruct a as [a|]; [|congruence]. destruct b as [b|]; [|congruence].
-  eexists. split; [reflexivity|]. apply dist_edge_nonneg.
+  cbn [dist_edge_opt]. apply dist_edge_nonneg.
 Qed.
 
 Lemma make_edge_maps_defined fl xv yv srcs dsts sig :
@@ -358,7 +371,8 @@ Proof.
   apply map2_Forall. intros a b Ha Hb.
   rewrite Forall_forall in Hs, Hd. specialize (Hs a Ha). specialize (Hd b Hb).
   destruct a as [a|]; [|congruence]. destruct b as [b|]; [|congruence].
-  eexists. split; [reflexivity|]. apply gauss_arg_nonpos. exact Hsig.
+  destruct (edge_map_cell_defined fl sig a b x y Hsig) as [e [He [Hle _]]].
+  exists e. split; assumption.
 Qed.
 
 Lemma get_edge_points_nth insts edges k e inst a b :
@@ -404,4 +418,154 @@ Proof.
   intros [H|H]; unfold contrib; rewrite H.
   - rewrite paf_cell_missing_src. destruct c; reflexivity.
   - rewrite paf_cell_missing_dst. destruct c; reflexivity.
+Qed.
+
+(* ------------------------------------------------------------------ *)
+(* round 4 (review finding 4): the domain of generate_pafs.  `in_domain` (EdgeMaps.v,
+   executable, tied to the code's exceptions through case CGenChk) spelled out, and the
+   whole-field theorems restated on that domain: outside it the code raises and the
+   model's totalised defaults (`nth k inst None`, `hd [] samples`, empty grid for stride 0)
+   describe nothing. *)
+
+Lemma edges_in_range_iff n edges :
+  edges_in_range n edges = true <->
+  forall e a b, nth_error edges e = Some (a, b) -> (a < n)%nat /\ (b < n)%nat.
+Proof.
+  unfold edges_in_range. rewrite forallb_forall. split.
+  - intros Hall e a b He. apply nth_error_In in He. specialize (Hall _ He). cbn [fst snd] in Hall.
+    apply andb_true_iff in Hall. destruct Hall as [H1 H2]. apply Nat.ltb_lt in H1, H2. split; assumption.
+  - intros Hall [a b] Hin. apply In_nth_error in Hin. destruct Hin as [e He].
+    destruct (Hall e a b He) as [H1 H2]. cbn [fst snd]. apply andb_true_iff. split; apply Nat.ltb_lt; assumption.
+Qed.
+
+Lemma in_domain_iff fb samples H W s edges :
+  in_domain fb samples H W s edges = true <->
+  exists smp rest, samples = smp :: rest /\ (0 < s)%nat /\
+    forall inst, In inst (kept fb H W s smp) ->
+      forall e a b, nth_error edges e = Some (a, b) -> (a < length inst)%nat /\ (b < length inst)%nat.
+Proof.
+  unfold in_domain. destruct samples as [|smp rest].
+  - split; [discriminate|]. intros [smp [rest [E _]]]. discriminate.
+  - rewrite andb_true_iff, Nat.leb_le, forallb_forall. fold (kept fb H W s smp). split.
+    + intros [Hs Hall]. exists smp, rest. split; [reflexivity|]. split; [lia|].
+      intros inst Hin. apply edges_in_range_iff. apply Hall. exact Hin.
+    + intros [smp' [rest' [E [Hs Hall]]]]. inversion E; subst smp' rest'. split; [lia|].
+      intros inst Hin. apply edges_in_range_iff. apply Hall. exact Hin.
+Qed.
+
+Lemma in_domain_stride fb samples H W s edges : in_domain fb samples H W s edges = true -> (0 < s)%nat.
+Proof. intros Hd. apply in_domain_iff in Hd. destruct Hd as [? [? [_ [Hs _]]]]. exact Hs. Qed.
+
+Lemma checked_some_iff fl fb samples H W sig s edges out :
+  generate_pafs_checked fl fb samples H W sig s edges = Some out <->
+  in_domain fb samples H W s edges = true /\ out = generate_pafs fl fb samples H W sig s edges.
+Proof.
+  unfold generate_pafs_checked. destruct (in_domain fb samples H W s edges); split.
+  - intros E. inversion E. auto.
+  - intros [_ ->]. reflexivity.
+  - discriminate.
+  - intros [E _]. discriminate.
+Qed.
+
+Theorem repaired_field_spec_dom samples H W sig s edges e a b c i j :
+  (0 < sig)%Q -> in_domain true samples H W s edges = true ->
+  nth_error edges e = Some (a, b) -> (c < 2)%nat -> (i * s < H)%nat -> (j * s < W)%nat ->
+  exists cl vs,
+    cell3 (generate_pafs_flat true true samples H W sig s edges) (2 * e + c) i j = Some cl /\
+    Forall2 (spec_contrib (Q2R sig) a b c (INR (j * s), INR (i * s)))
+            (filter (existsb (node_in_closed (nat_Q (W - 1)) (nat_Q (H - 1)))) (hd [] samples)) vs /\
+    Forall (fun inst => (a < length inst)%nat /\ (b < length inst)%nat)
+           (filter (existsb (node_in_closed (nat_Q (W - 1)) (nat_Q (H - 1)))) (hd [] samples)) /\
+    cval cl = Rsum vs /\ Forall term_ok cl.
+Proof.
+  intros Hsig Hd He Hc Hi Hj.
+  destruct (repaired_field_spec samples H W sig s edges e a b c i j Hsig (in_domain_stride _ _ _ _ _ _ Hd)
+              He Hc Hi Hj) as [cl [vs [H1 [H2 [H3 H4]]]]].
+  exists cl, vs. repeat (split; [assumption|]). split; [|split; assumption].
+  apply in_domain_iff in Hd. destruct Hd as [smp [rest [-> [_ Hall]]]]. cbn [hd].
+  apply Forall_forall. intros inst Hin. apply (Hall inst Hin e a b He).
+Qed.
+
+Lemma flat_cell_dom fl fb samples H W sig s edges e a b c i j :
+  (0 < sig)%Q -> in_domain fb samples H W s edges = true ->
+  nth_error edges e = Some (a, b) -> (c < 2)%nat -> (i * s < H)%nat -> (j * s < W)%nat ->
+  exists cl,
+    cell3 (generate_pafs_flat fl fb samples H W sig s edges) (2 * e + c) i j = Some cl /\
+    cval cl = Rsum (map (fun inst => pval (animal_contrib fl sig a b c (nat_Q (j * s)) (nat_Q (i * s)) inst))
+                        (kept fb H W s (hd [] samples))) /\
+    Forall term_ok cl.
+Proof.
+  intros Hsig Hd. apply generate_pafs_flat_cell; [exact Hsig|eapply in_domain_stride; exact Hd].
+Qed.
+
+Lemma cell_dom fl fb samples H W sig s edges e a b c i j :
+  in_domain fb samples H W s edges = true ->
+  nth_error edges e = Some (a, b) -> (c < 2)%nat -> (i * s < H)%nat -> (j * s < W)%nat ->
+  exists cl,
+    cell4 (generate_pafs fl fb samples H W sig s edges) e c i j = Some cl /\
+    cl = flat_map (fun inst => otl (animal_contrib fl sig a b c (nat_Q (j * s)) (nat_Q (i * s)) inst))
+                  (kept fb H W s (hd [] samples)) /\
+    cval cl = Rsum (map (fun inst => pval (animal_contrib fl sig a b c (nat_Q (j * s)) (nat_Q (i * s)) inst))
+                        (kept fb H W s (hd [] samples))).
+Proof. intros Hd. apply generate_pafs_cell. eapply in_domain_stride; exact Hd. Qed.
+
+Lemma shape_dom fl fb samples H W sig s edges :
+  in_domain fb samples H W s edges = true ->
+  shape4 (length edges) (ceil_div H s) (ceil_div W s) (generate_pafs fl fb samples H W sig s edges).
+Proof. intros _. apply generate_pafs_shape. Qed.
+
+Lemma flat_shape_dom fl fb samples H W sig s edges :
+  in_domain fb samples H W s edges = true ->
+  length (generate_pafs_flat fl fb samples H W sig s edges) = (2 * length edges)%nat /\
+  Forall (chan_ok (ceil_div H s) (ceil_div W s)) (generate_pafs_flat fl fb samples H W sig s edges).
+Proof. intros _. apply generate_pafs_flat_shape. Qed.
+
+Lemma flat_channel_dom fl fb samples H W sig s edges e c i j :
+  in_domain fb samples H W s edges = true ->
+  (e < length edges)%nat -> (c < 2)%nat ->
+  cell3 (generate_pafs_flat fl fb samples H W sig s edges) (2 * e + c) i j =
+  cell4 (generate_pafs fl fb samples H W sig s edges) e c i j.
+Proof. intros _. apply generate_pafs_flat_channel. Qed.
+
+(* a missing endpoint in the property's sense: the node EXISTS (index in range) and is NaN *)
+Lemma animal_contrib_missing_dom fl sig a b c x y inst :
+  (a < length inst)%nat -> (b < length inst)%nat ->
+  nth_error inst a = Some None \/ nth_error inst b = Some None ->
+  animal_contrib fl sig a b c x y inst = None.
+Proof.
+  intros _ _ H. apply animal_contrib_missing. unfold node.
+  destruct H as [H|H]; [left|right]; apply nth_error_nth; exact H.
+Qed.
+
+(* the repaired filter, with the image size >= 1 made explicit (W - 1 is truncated on nat) *)
+Lemma fixed_box_keeps_in_image_dom H W xv yv inst :
+  (0 < H)%nat -> (0 < W)%nat ->
+  (in_img true H W xv yv inst = true <->
+   exists x y, In (Some (x, y)) inst /\ (0 <= x <= nat_Q W - 1)%Q /\ (0 <= y <= nat_Q H - 1)%Q).
+Proof.
+  intros HH HW. rewrite fixed_box_keeps_in_image.
+  assert (E : forall n, (0 < n)%nat -> (nat_Q (n - 1) == nat_Q n - 1)%Q).
+  { intros n Hn. unfold nat_Q, Qminus, Qeq, inject_Z, Qplus, Qopp. simpl. lia. }
+  split; intros [x [y [Hin [Hx Hy]]]]; exists x, y; (split; [exact Hin|]).
+  - rewrite <- (E W HW), <- (E H HH). auto.
+  - rewrite (E W HW), (E H HH). auto.
+Qed.
+
+Lemma dist_edge_defined fl s d x y :
+  dist_edge fl s d x y = dist_edge_div (edge_len fl (len2 s d)) s d x y /\
+  exists D, dist_edge fl s d x y = Some D.
+Proof. split; [reflexivity|]. eexists. apply dist_edge_some. Qed.
+
+(* review finding 2: grid cell (2,1) lies on the segment from (-2,1) to (6,1) *)
+Lemma crossing_on_segment : on_segment (q2 (-2, 1)%Q) (q2 (6, 1)%Q) (Q2R 2, Q2R 1).
+Proof. exists (1/2). split; [lra|]. unfold pt_on, q2, Q2R. simpl. f_equal; field. Qed.
+
+(* review finding 8: the value of one instance's contribution in make_multi_pafs, in the
+   property's vocabulary (the analogue of animal_contrib_value one level down) *)
+Lemma contrib_value fl sig e c x y sd p q :
+  @nth kp e (fst sd) None = Some p -> @nth kp e (snd sd) None = Some q -> ~ (len2 p q == 0)%Q ->
+  pval (contrib fl sig e c x y sd) = mweight fl sig p q x y * comp c (unit_vec_spec (q2 p) (q2 q)).
+Proof.
+  intros Ha Hb Hz. unfold contrib. rewrite Ha, Hb. apply paf_cell_pval.
+  destruct (Qeq_bool (len2 p q) 0) eqn:E; [|reflexivity]. apply Qeq_bool_iff in E. contradiction.
 Qed.
